@@ -138,6 +138,18 @@ def simplify_families(tier: str) -> Dict[str, List[Any]]:
         twins += bins(('=', '!=', '<'), sums[::2], sums[1::2]) if tier != 'thorough' else bins(('=', '!=', '<', '>='), sums, sums)
     twins += [('bin', '=', a, b) for a in spell for b in spell]
     fam['equal-values-different-spelling'] = twins
+    # rare constants: conversions of boolean literals, integer powers beyond 2**53 (exact in Python, not in a double), huge powers
+    BIG = 12157665459056928801  # 3 ** 40
+    rare = []
+    for f in ('int', 'float'):
+        for b in (True, False):
+            c = ('call', f, L(b))
+            rare += [('bin', '=', c, Y), ('bin', '>', ('bin', '+', c, X), L(0)), ('bin', '<', ('bin', '*', X, c), Y), ('bin', 'in', X, ('range', ('call', f, L(False)), ('call', f, L(True)), False, False)),
+                     ('bin', '=', ('call', 'abs', c), L(1))]
+    rare += [('bin', '=', ('bin', '**', L(3), L(40)), L(BIG)), ('bin', '=', X, ('bin', '-', ('bin', '**', L(3), L(40)), L(BIG - 1))), ('bin', '<', X, ('bin', '**', L(7), L(400))),
+             ('bin', '=', ('bin', '**', ('bin', '**', L(3), L(3)), ('bin', '**', L(3), L(3))), Y), ('bin', '!=', ('bin', '**', L(2), L(64)), ('bin', '+', ('bin', '**', L(2), L(64)), L(1))),
+             ('bin', '<', ('bin', '*', L(2 ** 53 + 1), L(3)), Y), ('bin', '=', ('bin', '+', L(2 ** 53), L(1)), L(2 ** 53 + 1)), ('bin', '=', ('bin', '-', L(10 ** 30), L(1)), X)]
+    fam['rare-constants'] = rare
     return {k: uniq(v) for k, v in fam.items()}
 
 
@@ -169,8 +181,7 @@ def boolean_families(tier: str, alias_heavy: bool = False) -> Dict[str, List[Any
         + [('bin', 'and', ('not', a), Q) for a in (c2 if thorough else c2[::4])]
     # quantifiers: bodies mixing variable-dependent and variable-free parts
     qa = [('bin', '<', V, L(1)), ('bin', '=', V, X), ('bin', '>', V, AX)]
-    if alias_heavy:
-        qa.append(('bin', '>', ('idx', YS, V), L(0)))  # the quantified variable occurs ONLY inside an index expression
+    qa.append(('bin', '>', ('idx', YS, V), L(0)))  # the quantified variable occurs ONLY inside an index expression
     qf = [P, AP, alt]  # no variable
     qb0 = qa + qf
     qb1 = bins(LOGIC, qb0, qb0) + [('not', a) for a in qb0]
@@ -308,7 +319,8 @@ def reuse_family_quantified() -> List[Tuple[Any, bool]]:
     V = ('var', 'v')
     uses = {'gen': ('bin', '=', V, ('fa', ('var', 'B'), 'w')), 'num': ('bin', '<', V, L(1)), 'bool': ('not', V), 'str': ('bin', '=', V, ('str', 'a')),
             'gen2': ('bin', 'in', V, ('fa', ('var', 'B'), 'ws')), 'gen3': ('bin', '=', ('call', 'str', V), ('str', '1'))}
-    doms = [(('set', L(1), L(2)), 'num'), (('range', L(0), L(9.5), False, False), 'num'), (('set', ('str', 'a'), ('str', 'b')), 'str'), (('set', L(True), L(False)), 'bool'),
+    doms = [(('set', L(1), L(2)), 'num'), (('set', L(-1), L(1)), 'num'), (('set', ('bin', '+', X, L(1)), L(0)), 'num'), (('set', ('const', 'PI'), ('neg', ('const', 'E'))), 'num'),
+            (('range', L(0), L(9.5), False, False), 'num'), (('range', L(-1), L(2), True, False), 'num'), (('set', ('str', 'a'), ('str', 'b')), 'str'), (('set', L(True), L(False)), 'bool'),
             (('f', 'ws'), None), (('fa', ('var', 'B'), 'vs'), None)]
     for dom, dk in doms:
         for combo in it.permutations(uses, 3):
